@@ -89,7 +89,10 @@ func hardNumbers() []string {
 // (simple, BMP \u, surrogate pair, lone surrogates) and plain tails.
 func hardStrings() []string {
 	bs := "\\"
-	escs := []string{bs + "n", bs + "u00e9", bs + "u20ac", bs + "ud83d" + bs + "ude00", bs + "ud800", bs + "udc00", bs + "ud800x", bs + `"`, bs + bs, bs + "/", bs + "u0041"}
+	escs := []string{bs + "n", bs + "u00e9", bs + "u20ac", bs + "ud83d" + bs + "ude00", bs + "ud800", bs + "udc00", bs + "ud800x", bs + `"`, bs + bs, bs + "/", bs + "u0041",
+		// a high surrogate followed by a malformed / truncated / non-low second escape (the look-ahead
+		// that pairs surrogates reads bytes no state machine has validated yet)
+		bs + "ud83d" + bs + "ude0g", bs + "ud83d" + bs + "udeZZ", bs + "ud83d" + bs + "ude", bs + "ud83d" + bs + "u", bs + "ud83d" + bs, bs + "ud83d" + bs + "ud83d", bs + "ud83d" + bs + "uDE0G", bs + "ud83d" + bs + "u00e9", bs + "uD83D" + bs + "uDE00", bs + "udbff" + bs + "udfff", bs + "ud800" + bs + "udc00"}
 	var out []string
 	for _, pre := range []string{"", bs + `"`, "ab" + bs + `"`} {
 		for _, run := range []int{0, 1, 2, 3, 4, 5, 6, 7, 8, 9, 15, 16, 17, 31, 32, 33, 63, 64, 65} {
@@ -97,6 +100,23 @@ func hardStrings() []string {
 				for _, tail := range []string{"", "z", e} {
 					out = append(out, `"`+pre+strings.Repeat("p", run)+e+tail+`"`)
 				}
+			}
+		}
+	}
+	return out
+}
+
+// relatedNameDocs: member names of neighbouring objects that are related through escaping (the raw
+// text of one equals the decoded form of another, escaped and plain spellings of one name,
+// prefixes), every ordered pair in five arrangements.
+func relatedNameDocs() []string {
+	bs := "\\"
+	names := []string{`"a"`, `"` + U("0061") + `"`, `"a` + bs + `tb"`, `"a` + bs + bs + `tb"`, `"a` + bs + bs + bs + bs + `tb"`, `"a` + bs + `u0009b"`, `"a` + bs + bs + `u0009b"`, `"ab"`, `""`, `"` + bs + `""`, `"` + bs + bs + `"`}
+	var out []string
+	for _, k1 := range names {
+		for _, k2 := range names {
+			for _, shape := range []string{`[{K1:1},{K2:2}]`, `[[{K1:1}],[{K2:2}]]`, `{"p":{K1:1},"q":{K2:2}}`, `[{K1:1,K2:2},{K2:3,K1:4}]`, `{K1:{K2:1},K2:{K1:2}}`} {
+				out = append(out, strings.ReplaceAll(strings.ReplaceAll(shape, "K1", k1), "K2", k2))
 			}
 		}
 	}
